@@ -1,11 +1,16 @@
 """C17 — scalar, root-finding and colour utilities equal their mathematical definitions.
 
-Theorems: lean/ImathVerif/Props/C17.lean over the hand models Model/Fun.lean,
-Model/Roots.lean, Model/ColorAlgo.lean.
-Tie: harness/corr/fun_corr.cpp (the real ImathFun/ImathMath/ImathRoots/
-ImathColorAlgo code, linked in-process) against lean/Driver/Fun.lean (the models
-executed at Float32/Float/Int/Nat) on the same canonical lines, plus
-integer-only / Python specifications evaluated independently of both.
+Theorems: lean/ImathVerif/Props/C17.lean.
+T-route (harness/sym/sym_c17.cpp, ops_c17.h -> Gen/C17Fun.lean, Gen/C17Roots.lean, regenerated on every run): abs sign lerp ulerp
+lerpfactor clamp cmp cmpt iszero equal sinx_over_x equalWithAbsError equalWithRelError solveLinear solveQuadratic
+solveNormalizedCubic solveCubic; theorems `gen_*` prove regenerated definition = hand model, so every theorem about the hand
+models of these functions breaks when /repo changes them.
+H-route (hand models Model/Fun.lean, Model/Roots.lean, Model/ColorAlgo.lean): floor/ceil/trunc (cast to int), divs/mods/divp/modp
+(int), finite/succ/pred (bits), the colour routines of ImathColorAlgo.cpp/.h; tied by harness/corr/fun_corr.cpp (the real code,
+in-process; built twice: plain and with -fsanitize=undefined,float-cast-overflow -fno-sanitize-recover=all) against
+lean/Driver/Fun.lean (the models executed at Float32/Float/Int/Nat) on the same canonical lines, plus integer-only / Python
+specifications evaluated independently of both.  A sanitizer abort is a correspondence failure with the input as replay, unless
+the model's list of int intermediates says the operation overflows AND the mathematical result is not representable.
 
 Every mismatch is classified by the specification:
   implementation != specification  -> violation with that input
@@ -14,14 +19,21 @@ Genuine defects of the current source are reported as violations with keys that
 name the call site (see the module docstring of Props/C17.lean)."""
 import os, re, struct, math, itertools
 from fractions import Fraction
-import lib
+import lib, troute
 
 MOD = "ImathVerif.Props.C17"
+LINK_IMPORTS = ["ImathVerif.Lemmas.FunLemmas", "ImathVerif.Lemmas.RootsLemmas", "ImathVerif.Gen.C17Fun", "ImathVerif.Gen.C17Roots"]
+LINK_OPENS = ["ImathVerif", "ImathVerif.Fun", "ImathVerif.Roots"]
 DRV = os.path.join(lib.LEAN, ".lake", "build", "bin", "drv_fun")
 SCR = os.path.join(lib.BUILD, "scratch", "c17run")
 
 REQUIRED = [
-    "floor_eq_floor", "ceil_eq_ceil", "trunc_eq_trunc", "floor_no_overflow",
+    "floor_eq_floor", "ceil_eq_ceil", "trunc_eq_trunc", "floor_no_overflow", "floor_former_defect_fixed", "ceil_no_overflow",
+    "ceil_result_not_representable", "trunc_no_overflow", "modp_former_defect_fixed",
+    # T-route tie: regenerated definition = hand model
+    "abs_is_sabs", "gen_abs", "gen_sign", "gen_lerp", "gen_ulerp", "gen_lerpfactor", "gen_clamp", "gen_cmp", "gen_cmpt", "gen_iszero",
+    "gen_equal", "gen_equalWithAbsError", "gen_equalWithRelError", "gen_sinx_over_x", "sqrt3_literal", "gen_solveLinear", "gen_solveQuadratic",
+    "gen_solveNormalizedCubic", "gen_solveCubic",
     "divs_mods_truncating", "divp_modp_euclidean", "divs_mods_int32", "divp_modp_int32",
     "divp_former_defect_fixed",
     "abs_is_abs", "sign_is_sign", "cmp_is_three_way", "cmpt_is_tolerant_cmp", "iszero_iff", "equal_iff",
@@ -32,11 +44,15 @@ REQUIRED = [
     "solveLinear_correct", "solveQuadratic_two_roots", "solveQuadratic_one_root", "solveQuadratic_no_root",
     "solvers_delegate", "solveNormalizedCubic_triple_root", "solveNormalizedCubic_real",
     "cardanoA_never_zero", "cubic_former_defect_fixed", "solveNormalizedCubic_complex_roots",
+    "cubic_one_real_root", "solveNormalizedCubic_real_unique", "solveNormalizedCubic_three_distinct", "solveNormalizedCubic_double_root",
+    "nonvacuity_cubic_real_unique", "nonvacuity_cubic_three_distinct", "nonvacuity_cubic_double_root",
+    "ulerp_unsigned", "succ_pred_no_value_between", "hsv_rgb_ranges",
     "color4_agrees_with_vec3", "hsv2rgb_rgb2hsv", "rgb2hsv_hsv2rgb", "integer_wrappers_scale_by_max",
     "rgb2packed_packed2rgb_exact", "color4_int_alpha_fixed",
 ]
 
 INT_MIN, INT_MAX = -2 ** 31, 2 ** 31 - 1
+UBSAN_FLAGS = ["-fsanitize=undefined,float-cast-overflow", "-fno-sanitize-recover=all"]
 TYPES = {"uc": ("unsigned char", 255), "s": ("short", 32767), "us": ("unsigned short", 65535),
          "i": ("int", INT_MAX), "ui": ("unsigned int", 2 ** 32 - 1)}
 
@@ -69,8 +85,11 @@ def hf(x):
 
 
 def tof(x):
-    """round a Python float to binary32 (returns the float value)"""
-    return u2f(f2u(x))
+    """round a Python float to binary32 (returns the float value); overflow gives the infinity float arithmetic gives"""
+    try:
+        return u2f(f2u(x))
+    except OverflowError:
+        return math.copysign(float("inf"), x)
 
 
 def canon(tok, width):
@@ -86,13 +105,13 @@ def canon(tok, width):
     return tok
 
 
-def run_lines(binary, lines, tag):
-    """feed command lines to `<binary> lines`; returns list of output lines"""
+def run_lines(binary, lines, tag, mode="lines"):
+    """feed command lines to `<binary> lines` (or `ilines`: isolated, a sanitizer abort answers "UB ..."); returns list of output lines"""
     lib.ensure_dir(SCR)
     p = os.path.join(SCR, "%s_%d.txt" % (tag, os.getpid()))
     with open(p, "w") as f:
         f.write("\n".join(lines) + "\n")
-    rc, out = lib.sh("%s lines < %s" % (binary, p), timeout=1800)
+    rc, out = lib.sh("%s %s < %s" % (binary, mode, p), timeout=1800)
     os.remove(p)
     res = out.split("\n")
     if res and res[-1] == "":
@@ -101,16 +120,17 @@ def run_lines(binary, lines, tag):
 
 
 class Ctx:
-    def __init__(self, chk, binary):
+    def __init__(self, chk, binary, ubsan=None):
         self.chk = chk
         self.binary = binary
+        self.ubsan = ubsan        # the same harness built with -fsanitize=undefined,float-cast-overflow -fno-sanitize-recover=all
         self.hits = {}
         self.spec_fail = {}       # category -> first replay dict (for theorem search)
 
     def hit(self, k, n=1):
         self.hits[k] = self.hits.get(k, 0) + n
 
-    def both(self, lines, tag):
+    def both(self, lines, tag, ubsan=True):
         rc1, a = run_lines(self.binary, lines, tag + "_impl")
         rc2, b = run_lines(DRV, lines, tag + "_model")
         ok = rc1 == 0 and rc2 == 0 and len(a) == len(lines) and len(b) == len(lines)
@@ -120,10 +140,43 @@ class Ctx:
             self.chk.fail("corr:%s" % tag, "protocol:%s" % tag, "harness/driver did not answer every line (%s)" % tag,
                           {"impl_rc": rc1, "model_rc": rc2, "impl_tail": a[-3:], "model_tail": b[-3:]}, False)
             return None, None
+        if ubsan:
+            self.same_under_ubsan(lines, a, tag)
         return a, b
+
+    def same_under_ubsan(self, lines, a, tag):
+        """every line again on the UBSan build: no sanitizer report, and the same answer as the plain build"""
+        u = self.sanitized(lines, tag)
+        if u is None:
+            return
+        bad = [i for i in range(len(lines)) if u[i] != a[i]]
+        name = "ubsan:%s: the sanitised build answers all %d lines like the plain build (no undefined behaviour)" % (tag, len(lines))
+        self.chk.oblige(name, "correspondence", not bad)
+        self.chk.count(len(lines), len(lines))
+        for i in bad[:3]:
+            fn = lines[i].split()[0]
+            what = ("reports " + u[i][3:]) if u[i].startswith("UB") else "answers %s where the plain build answers %s" % (u[i], a[i])
+            self.chk.fail(name, "fun_corr:%s:undefined-behaviour" % fn, "`%s`: the sanitised build %s" % (lines[i], what),
+                          {"line": lines[i], "sanitised_build": u[i], "plain_build": a[i], "replay_cmd": self.replay_ub(lines[i])}, True)
 
     def replay_cmd(self, line):
         return "echo '%s' | %s lines" % (line, os.path.relpath(self.binary, lib.VERIF))
+
+    def replay_ub(self, line):
+        return "echo '%s' | %s ilines   # g++ -fsanitize=undefined,float-cast-overflow -fno-sanitize-recover=all" % (
+            line, os.path.relpath(self.ubsan, lib.VERIF))
+
+    def sanitized(self, lines, tag):
+        """the same lines on the UBSan build, isolated: list of answers ("UB <report>" where the sanitizer aborted) or None"""
+        if not self.ubsan:
+            return None
+        rc, u = run_lines(self.ubsan, lines, tag + "_ubsan", mode="ilines")
+        if rc != 0 or len(u) != len(lines):
+            self.chk.oblige("ubsan:%s:protocol" % tag, "correspondence", False, "rc=%s lines=%d answers=%d" % (rc, len(lines), len(u)))
+            self.chk.fail("ubsan:%s:protocol" % tag, "protocol:ubsan:%s" % tag, "sanitised harness did not answer every line (%s)" % tag,
+                          {"rc": rc, "tail": u[-3:]}, False)
+            return None
+        return u
 
 
 # ---------------------------------------------------------------------------
@@ -253,7 +306,7 @@ def check_floats(cx):
     # (2) model vs implementation on the boundary subset (quick) / all 2^32 (thorough)
     pats = f32_patterns(rng)
     lines = ["f32 %s %x" % (op, u) for op in F32OPS for u in pats]
-    a, b = cx.both(lines, "f32")
+    a, b = cx.both(lines, "f32", ubsan=False)
     if a is not None:
         bad = [i for i in range(len(lines)) if a[i] != b[i]]
         chk.oblige("corr:f32:boundary-subset(%d patterns x 6)" % len(pats), "correspondence", not bad)
@@ -298,37 +351,113 @@ def check_floats(cx):
                             break
                 chk.fail("corr:f32:" + op, key, "%s: model and implementation differ" % op, rep, found)
         chk.exhaustive = True
-    # (3) doubles: boundary subset, three-way
+    # (2b) the float boundary subset on the UBSan build: no sanitizer report, same answers
+    u = cx.sanitized(lines, "f32") if a is not None else None
+    if u is not None:
+        ub = [i for i in range(len(lines)) if u[i].startswith("UB")]
+        diff = [i for i in range(len(lines)) if not u[i].startswith("UB") and u[i] != a[i]]
+        chk.oblige("ubsan:f32:no undefined behaviour on any float of the boundary subset (%d calls)" % len(lines), "correspondence", not ub and not diff)
+        chk.count(len(lines), len(lines))
+        for i in (ub + diff)[:3]:
+            op, uu = lines[i].split()[1], int(lines[i].split()[2], 16)
+            chk.fail("ubsan:f32", "fun_corr:%s(float):undefined-behaviour" % op,
+                     "%s (float 0x%08x = %r): the sanitised build %s" % (op, uu, u2f(uu), "reports " + u[i][3:] if u[i].startswith("UB") else "answers differently"),
+                     {"function": op, "float_bits": "0x%08x" % uu, "value": repr(u2f(uu)), "sanitised": u[i], "plain": a[i], "replay_cmd": cx.replay_ub(lines[i])}, True)
+    # (3) doubles: boundary subset.  Four views of every call: the plain build (result stored in an `int` by a noinline
+    # wrapper), the UBSan build (aborts on the first undefined operation), the Lean model with MACHINE-int intermediates
+    # (wrapped value + "no intermediate overflows"), and the mathematical function (Python, unbounded).
     pats = f64_patterns(rng)
     ops = ["floor", "ceil", "trunc", "finite", "succ", "pred"]
     lines = ["f64 %s %x" % (op, u) for op in ops for u in pats]
-    a, b = cx.both(lines, "f64")
+    a, b = cx.both(lines, "f64", ubsan=False)
     if a is not None:
-        nb = 0
+        casts = [i for i, l in enumerate(lines) if l.split()[1] in ("floor", "ceil", "trunc")]
+        rc, mm = run_lines(DRV, ["f64m " + lines[i][4:] for i in casts], "f64m")
+        mach = dict(zip(casts, mm)) if rc == 0 and len(mm) == len(casts) else None
+        u = cx.sanitized(lines, "f64")
+        if mach is None:
+            chk.oblige("corr:f64:machine-int model answers", "correspondence", False)
+            chk.fail("corr:f64:machine-int model answers", "protocol:f64m", "driver did not answer the f64m lines", {"rc": rc, "tail": mm[-3:]}, False)
+        nb, defect, outside, stale, ubx = 0, {}, {}, [], []
         for i, l in enumerate(lines):
-            op, u = l.split()[1], int(l.split()[2], 16)
-            sp = spec_f64(op, u)
-            if a[i] != sp:
-                nb += 1
-                if nb <= 3:
-                    rep = {"function": op + "(double)", "double_bits": "0x%016x" % u, "value": repr(u2d(u)),
-                           "implementation": a[i], "model": b[i], "specification": sp, "replay_cmd": cx.replay_cmd(l)}
-                    cx.spec_fail.setdefault("float", rep)
-                    chk.fail("spec:f64:" + op, "%s(double):0x%016x" % (op, u),
-                             "%s differs from its mathematical definition at double 0x%016x" % (op, u), rep, True)
-            elif b[i] != sp:
-                nb += 1
-                if nb <= 3:
-                    chk.fail("corr:f64:" + op, "model:%s(double):0x%016x" % (op, u), "model differs from implementation and specification",
-                             {"double_bits": "0x%016x" % u, "implementation": a[i], "model": b[i], "specification": sp}, True)
-        chk.oblige("corr+spec:f64:boundary-subset(%d patterns x 6)" % len(pats), "correspondence", nb == 0)
+            op, uu = l.split()[1], int(l.split()[2], 16)
+            sp = spec_f64(op, uu)
+            san = u[i] if u is not None else a[i]
+            if i in (mach or {}) and mach[i] != "x":
+                mv, flag = mach[i].split()
+                spec_fits = INT_MIN <= int(sp) <= INT_MAX
+                if flag == "1":
+                    # the theorems' domain (floor_no_overflow / ceil_no_overflow / trunc_no_overflow): all five views agree
+                    cx.hit("f64:%s:no-overflow-domain" % op)
+                    if san.startswith("UB"):
+                        ubx.append((i, op, uu, san))
+                    elif not (a[i] == san == mv == b[i] == sp):
+                        nb += 1
+                        if nb <= 3:
+                            who = "model" if a[i] == sp == san else "implementation"
+                            rep = {"function": op + "(double)", "double_bits": "0x%016x" % uu, "value": repr(u2d(uu)), "implementation": a[i],
+                                   "sanitised_build": san, "model(unbounded Int)": b[i], "model(machine int)": mv, "specification": sp,
+                                   "replay_cmd": cx.replay_cmd(l)}
+                            if who == "implementation":
+                                cx.spec_fail.setdefault("float", rep)
+                            chk.fail("corr+spec:f64", ("model:" if who == "model" else "") + "%s(double):0x%016x" % (op, uu),
+                                     "%s differs from its mathematical definition at double 0x%016x (%s)" % (op, uu, who), rep, True)
+                else:
+                    # the model says an `int` intermediate overflows: the sanitised build must abort there
+                    if u is not None and not san.startswith("UB"):
+                        stale.append((i, op, uu, san))
+                    elif spec_fits:
+                        defect.setdefault(op, []).append((i, uu, san, a[i], mv, sp))
+                    else:
+                        outside.setdefault(op, []).append((i, uu, a[i], mv, sp))
+            else:
+                if san.startswith("UB"):
+                    ubx.append((i, op, uu, san))
+                elif not (a[i] == san == b[i] == sp):
+                    nb += 1
+                    if nb <= 3:
+                        who = "model" if a[i] == sp else "implementation"
+                        chk.fail("corr+spec:f64", ("model:" if who == "model" else "") + "%s(double):0x%016x" % (op, uu),
+                                 "%s: %s differs at double 0x%016x" % (op, who, uu),
+                                 {"double_bits": "0x%016x" % uu, "implementation": a[i], "sanitised_build": san, "model": b[i], "specification": sp,
+                                  "replay_cmd": cx.replay_cmd(l)}, True)
+        chk.oblige("corr+spec:f64:boundary-subset(%d patterns x 6): plain = sanitised = model(machine int) = model(Int) = math on the no-overflow domain"
+                   % len(pats), "correspondence", nb == 0)
         chk.count(len(lines), len(lines))
-        # doubles in (-2^31, -(2^31-1)): in the property's domain, but `int (-x) + 1` overflows (recorded)
-        edge = [i for i, l in enumerate(lines) if l.startswith("f64 floor") and -2.0 ** 31 < u2d(int(l.split()[2], 16)) < -(2.0 ** 31 - 1)]
-        cx.hit("f64:floor:intermediate-overflow-inputs", len(edge))
-        chk.extra["floor_double_intermediate_overflow"] = {
-            "inputs": len(edge), "implementation_correct_anyway": sum(1 for i in edge if a[i] == "-2147483648"),
-            "note": "x in (-2^31, -(2^31-1)): int(-x)+1 = 2^31 overflows (UB); the compiled code wraps and returns the right value"}
+        name_ub = ("ubsan:f64: the sanitizer aborts exactly where the model's int intermediates overflow, and then the mathematical result "
+                   "is not an int (outside the property)")
+        chk.oblige(name_ub, "correspondence", not defect and not stale and not ubx)
+        for op, lst in sorted(defect.items()):
+            lst.sort(key=lambda t: (t[1] not in (0xc1dfffffffe00000, 0x41dfffffffe00000), t[1]))   # canonical witness first: -+2147483647.5
+            i, uu, san, av, mv, sp = lst[0]
+            cx.hit("f64:%s:intermediate-overflow,result-representable" % op, len(lst))
+            rep = {"function": "%s(double)" % op, "double_bits": "0x%016x" % uu, "value": repr(u2d(uu)), "mathematical_result": sp,
+                   "fits_int": True, "sanitised_build": san, "plain_build_result": av, "model(machine int, wrapping)": mv,
+                   "inputs_of_this_class_in_the_run": len(lst), "others": ["0x%016x" % t[1] for t in lst[1:8]],
+                   "theorem": "ImathVerif.C17.floor_no_overflow / floor_former_defect_fixed", "replay_cmd": cx.replay_ub(lines[i])}
+            cx.spec_fail.setdefault("float", rep)
+            chk.fail(name_ub, "fun_corr:%s(double):result-representable,intermediate-overflows" % op,
+                     "%s (%r): the mathematical result %s is an int, but an int intermediate overflows (undefined behaviour: %s); "
+                     "the unsanitised build returns %s only because the overflow wraps" % (op, u2d(uu), sp, san[3:], av), rep, True)
+        for i, op, uu, san in stale[:3]:
+            chk.fail(name_ub, "model:%s(double):steps-stale" % op,
+                     "the model lists an overflowing int intermediate for %s (%r) but the sanitised build of the current source computes %s without a report: "
+                     "Model/Fun.lean (floorSteps / ceilSteps) no longer mirrors the expression in ImathFun.h" % (op, u2d(uu), san),
+                     {"function": op, "double_bits": "0x%016x" % uu, "sanitised_build": san, "replay_cmd": cx.replay_ub(lines[i])}, True)
+        for i, op, uu, san in ubx[:3]:
+            rep = {"function": op, "double_bits": "0x%016x" % uu, "value": repr(u2d(uu)), "sanitised_build": san, "replay_cmd": cx.replay_ub(lines[i])}
+            cx.spec_fail.setdefault("float", rep)
+            chk.fail(name_ub, "fun_corr:%s(double):undefined-behaviour" % op,
+                     "%s (%r): the sanitised build reports %s where the model has no overflowing intermediate" % (op, u2d(uu), san[3:]), rep, True)
+        chk.extra["f64_outside_the_property(result not an int)"] = {
+            op: {"inputs": len(lst), "example": "0x%016x" % lst[0][1], "mathematical_result": lst[0][4], "plain_build_returns": lst[0][2],
+                 "model(machine int, wrapping)": lst[0][3],
+                 "plain_build_equals_wrapping_model": sum(1 for t in lst if t[2] == t[3]),
+                 "note": "x in (2^31-1, 2^31): ceil(x) = 2^31 is not an int (theorem ceil_result_not_representable); not claimed"}
+            for op, lst in sorted(outside.items())}
+        for op, lst in outside.items():
+            cx.hit("f64:%s:result-not-an-int(outside)" % op, len(lst))
+        cx.hit("f64:floor:intermediate-overflow-inputs", len(defect.get("floor", [])))
 
 
 # ---------------------------------------------------------------------------
@@ -354,7 +483,7 @@ def check_ints(cx):
     vals = int_values(chk.rng)
     pairs = [(x, y) for x in vals for y in vals if y != 0]
     pairs.append((-5, INT_MAX))
-    a, b = cx.both(["int %d %d" % p for p in pairs], "int")
+    a, b = cx.both(["int %d %d" % p for p in pairs], "int", ubsan=False)
     rc, c = run_lines(DRV, ["ints %d %d" % p for p in pairs], "ints")
     if a is None or rc != 0 or len(c) != len(pairs):
         return
@@ -394,6 +523,47 @@ def check_ints(cx):
             for k in (2, 3):
                 if ia[k] != str(spec[k]):
                     neg_guard_bad.append((names[k], x, y, ia[k], spec[k]))
+    # the UBSan build, one function per call: the sanitizer must abort exactly where the model's list of int intermediates
+    # (divsSteps ... modpSteps) has an entry outside the int range; an abort INSIDE the property's guard (no negation overflows,
+    # Euclidean quotient representable) is a defect even if the wrapping build returns the right value
+    ulines = ["int1 %s %d %d" % (n, x, y) for (x, y) in pairs for n in names]
+    u = cx.sanitized(ulines, "int")
+    if u is not None:
+        ub_mismatch, ub_in_guard = [], {}
+        for k, ((x, y), lc) in enumerate(zip(pairs, c)):
+            flags = lc.split()[4]
+            ey = abs(y); er = x % ey; eq = (x - er) // y
+            q = tdiv(x, y)
+            for j, n in enumerate(names):
+                ans = u[4 * k + j]
+                aborted = ans.startswith("UB")
+                if aborted != (flags[j] == "0"):
+                    ub_mismatch.append((n, x, y, ans, flags[j]))
+                in_guard = (flags[4] == "1" and INT_MIN <= eq <= INT_MAX) if n in ("divp", "modp") else (x != INT_MIN and y != INT_MIN)
+                if aborted and in_guard:
+                    ub_in_guard.setdefault(n, []).append((x, y, ans, a[k].split()[j], [q, x - y * q, eq, er][j]))
+                cx.hit("int:%s:ubsan:%s" % (n, "aborts" if aborted else "clean"))
+        chk.count(len(ulines), len(ulines))
+        chk.oblige("ubsan:int: the sanitizer aborts exactly where the model's int intermediates overflow (%d pairs x 4 functions)" % len(pairs),
+                   "correspondence", not ub_mismatch)
+        for n, x, y, ans, fl in ub_mismatch[:3]:
+            chk.fail("ubsan:int: the sanitizer aborts exactly", "model:%s:steps-stale" % n,
+                     "%s(%d,%d): sanitised build %s but the model's step list says %s" % (n, x, y, "reports " + ans[3:] if ans.startswith("UB") else "is clean (" + ans + ")",
+                                                                                      "no overflow" if fl == "1" else "an intermediate overflows"),
+                     {"function": n, "x": x, "y": y, "sanitised_build": ans, "model_noOverflow_flag": fl, "replay_cmd": cx.replay_ub("int1 %s %d %d" % (n, x, y))}, True)
+        name_g = "ubsan:int: no undefined behaviour for inputs inside the property's guard (no negation overflows, quotient representable)"
+        chk.oblige(name_g, "correspondence", not ub_in_guard)
+        for n, lst in sorted(ub_in_guard.items()):
+            lst.sort(key=lambda t: ((t[0], t[1]) != (-2147483647, 3), abs(t[1]), t[0]))
+            x, y, ans, plain, spec = lst[0]
+            rep = {"function": n, "x": x, "y": y, "euclidean_quotient": (x - x % abs(y)) // y, "mathematical_result": spec, "fits_int": True,
+                   "sanitised_build": ans, "plain_build_result": plain, "grid_pairs_of_this_class": len(lst),
+                   "others": [{"x": t[0], "y": t[1]} for t in lst[1:8]],
+                   "theorem": "ImathVerif.C17.modp_former_defect_fixed", "replay_cmd": cx.replay_ub("int1 %s %d %d" % (n, x, y))}
+            cx.spec_fail.setdefault("int", rep)
+            chk.fail(name_g, "fun_corr:%s:result-representable,intermediate-overflows" % n,
+                     "%s(%d,%d): no negation overflows and the result %s is an int, but an int intermediate overflows (undefined behaviour: %s); "
+                     "the unsanitised build returns %s only because the overflow wraps" % (n, x, y, spec, ans[3:], plain), rep, True)
     chk.count(4 * len(pairs), 4 * len(pairs))
     chk.oblige("corr:int:model=euclid/trunc-spec(%d pairs)" % len(pairs), "correspondence", not model_bad)
     chk.oblige("corr:int:impl=model=spec-under-no-overflow-guard", "correspondence", not impl_bad)
@@ -425,16 +595,29 @@ def check_ints(cx):
 def check_scalars(cx):
     chk, rng = cx.chk, cx.chk.rng
     base = [0.0, -0.0, 1.0, -1.0, 0.5, 2.0, 3.0, -2.5, 1e-30, -1e-30, 1e30, 0.1, 100.0, float("inf"), float("nan")]
-    lines = []
-    for ty, mx, tiny, h in (("sd", 1.7976931348623157e308, 5e-324, hd), ("sf", 3.4028234663852886e38, 1e-45, hf)):
+    lines, meta = [], []
+    for ty, mx, tiny, h, rnd in (("sd", 1.7976931348623157e308, 5e-324, hd, float), ("sf", 3.4028234663852886e38, 1e-45, hf, tof)):
         vals = base + [mx, -mx, tiny, mx / 2]
         trip = [(a, b, t) for a in vals for b in vals for t in (0.0, 1.0, 0.25, -1.0, 2.0, 1e-30, mx, float("nan"))]
         trip = rng.sample(trip, 1200) + [(rng.uniform(-10, 10), rng.uniform(-10, 10), rng.uniform(-1, 2)) for _ in range(600)]
         # lerpfactor guard neighbourhood: d tiny, n huge
         trip += [(tiny * k, tiny * (k + j), mx / d) for k in (0, 1, 3) for j in (1, 2) for d in (1, 2, 4)]
-        trip += [(a, a, t) for a in (0.0, 1.0, -3.0) for t in (0.0, 5.0)]
+        trip += [(a, a, t) for a in (0.0, 1.0, -3.0) for t in (0.0, 5.0)] + [(1.0, 1.0, 1.0), (-3.0, -3.0, -3.0)]
+        # ... and the edge of the guard itself: |n| == max * |d| exactly (strict `<`: returns 0), d == 1 (`> 1` is false)
+        trip += [(0.0, 0.5, mx / 2), (0.0, 0.25, mx / 4), (0.0, -0.5, mx / 2), (0.0, 1.0, mx), (0.0, 1.0, mx / 2), (0.0, -1.0, 3.0), (0.0, 2.0, mx)]
+        # DETERMINISTIC boundary triples: the equalities that separate `<=` from `<` (line = a b t; clamp is clamp (t, a, b))
+        nb = len(trip)
+        for t in (0.25, 1.0, 1e-30 if ty == "sd" else 9.999999682655225e-21):
+            for a in (0.0, 1.0, -2.0, 4.0):
+                trip += [(a, a + t, t), (a, a - t, t), (a + t, a, t)]       # |a - b| == t : cmpt / equal / equalWithAbsError
+            trip += [(t, 7.0, t), (-t, 7.0, t)]                             # |a| == t     : iszero
+        trip += [(2.0, 1.0, 0.5), (4.0, 3.0, 0.25), (-2.0, -1.0, 0.5), (4.0, 5.0, 0.25)]   # |x1 - x2| == e * |x1| : equalWithRelError
+        trip += [(1.0, 3.0, 1.0), (1.0, 3.0, 3.0), (-2.0, -2.0, -2.0), (1.0, 3.0, 0.999), (1.0, 3.0, 3.001)]   # clamp: a == l, a == h
+        cx.hit("scalar:deterministic-boundary-triples", len(trip) - nb)
         for a, b, t in trip:
+            a, b, t = rnd(a), rnd(b), rnd(t)
             lines.append("%s %s %s %s" % (ty, h(a), h(b), h(t)))
+            meta.append((ty, a, b, t))
     a, b = cx.both(lines, "scal")
     if a is None:
         return
@@ -453,15 +636,168 @@ def check_scalars(cx):
                  "abs/sign/lerp/ulerp/lerpfactor/clamp/cmp/cmpt/iszero/equal/equalWithAbs/RelError: implementation differs from model",
                  {"line": lines[i], "columns": "abs sign lerp ulerp lerpfactor(t,a,b) clamp(t,a,b) cmp cmpt iszero equal eqAbs eqRel",
                   "implementation": a[i], "model": b[i], "replay_cmd": cx.replay_cmd(lines[i])}, True)
-    # residue: lerpfactor (lerp (a,b,t), a, b) - t  (rounding of lerp; measured)
-    worst = 0.0
-    for _ in range(2000):
-        x, y, t = rng.uniform(-100, 100), rng.uniform(-100, 100), rng.uniform(0, 1)
-        if abs(y - x) < 1e-3:
-            continue
-        m = x * (1 - t) + y * t
-        worst = max(worst, abs((m - x) / (y - x) - t))
-    chk.residues["lerpfactor(lerp(a,b,t),a,b)-t (double, |b-a|>=1e-3, python re-evaluation)"] = {"max_abs": worst, "bound": 1e-9}
+
+    # ---- independent specification of the arithmetic-free functions, on the real code (values, not bit patterns: abs (+0) is -0)
+    isnan = lambda v: v != v
+    spec_bad, nspec = [], 0
+    mxof = {"sd": 1.7976931348623157e308, "sf": 3.4028234663852886e38}
+    lf_bad = []
+    for i, (ty, x, y, t) in enumerate(meta):
+        dec = (lambda tok: u2d(int(tok, 16))) if ty == "sd" else (lambda tok: u2f(int(tok, 16)))
+        rnd = float if ty == "sd" else tof
+        col = a[i].split()
+        got_abs, got_sign, got_clamp, got_cmp, got_isz = dec(col[0]), int(col[1]), dec(col[5]), int(col[6]), int(col[8])
+        chk_list = []
+        if not isnan(x):
+            chk_list += [("abs", got_abs == math.fabs(x), math.fabs(x), got_abs),
+                         ("sign", got_sign == (x > 0) - (x < 0), (x > 0) - (x < 0), got_sign)]
+            if not isnan(t):
+                chk_list.append(("iszero", got_isz == (1 if math.fabs(x) <= t else 0), 1 if math.fabs(x) <= t else 0, got_isz))
+        if not isnan(x) and not isnan(y):
+            chk_list.append(("cmp", got_cmp == (x > y) - (x < y), (x > y) - (x < y), got_cmp))      # IEEE: a - b == 0 <=> a == b, sign exact
+            if not isnan(t) and x <= y:
+                want = min(max(t, x), y)
+                chk_list.append(("clamp", got_clamp == want, want, got_clamp))
+        for fn, okk, want, got in chk_list:
+            nspec += 1
+            if not okk:
+                spec_bad.append((i, fn, want, got))
+        # lerpfactor (m = t, a = x, b = y): finite whenever n, d are; non-zero only if the guard holds; 0 whenever it does not
+        if not any(isnan(v) or math.isinf(v) for v in (x, y, t)):
+            n, d = rnd(t - x), rnd(y - x)
+            if not (math.isinf(n) or math.isinf(d)):
+                lf = dec(col[4])
+                guard = abs(Fraction(d)) > 1 or abs(Fraction(n)) < Fraction(mxof[ty]) * abs(Fraction(d))
+                cx.hit("lerpfactor:spec:" + ("guard-holds" if guard else "guard-fails"))
+                if isnan(lf) or math.isinf(lf):
+                    lf_bad.append((i, "not finite", lf))
+                elif lf != 0 and not guard:
+                    lf_bad.append((i, "non-zero although |d| <= 1 and |n| >= max |d|", lf))
+                elif guard and d != 0 and lf != rnd(n / d):
+                    lf_bad.append((i, "guard holds but the result is not n / d", lf))
+    chk.count(nspec, nspec)
+    chk.oblige("spec:scalar: abs/sign/cmp/clamp/iszero of the real code = their definitions evaluated independently (%d comparisons)" % nspec,
+               "correspondence", not spec_bad)
+    for i, fn, want, got in spec_bad[:3]:
+        rep = {"function": fn, "line": lines[i], "a,b,t": [repr(v) for v in meta[i][1:]], "expected": want, "implementation": got,
+               "replay_cmd": cx.replay_cmd(lines[i])}
+        cx.spec_fail.setdefault("scalar", rep)
+        chk.fail("spec:scalar", "fun_corr:%s<%s>:differs-from-definition" % (fn, "double" if meta[i][0] == "sd" else "float"),
+                 "%s%r returns %r, its definition gives %r" % (fn, tuple(meta[i][1:]), got, want), rep, True)
+    chk.oblige("spec:lerpfactor:finite, and 0 exactly when the guard |d| > 1 or |n| < max |d| fails (exact rationals)", "correspondence", not lf_bad)
+    for i, what, lf in lf_bad[:3]:
+        rep = {"line": lines[i], "m,a,b": [repr(meta[i][3]), repr(meta[i][1]), repr(meta[i][2])], "lerpfactor": repr(lf), "what": what,
+               "replay_cmd": cx.replay_cmd(lines[i])}
+        cx.spec_fail.setdefault("scalar", rep)
+        chk.fail("spec:lerpfactor", "fun_corr:lerpfactor<%s>:%s" % ("double" if meta[i][0] == "sd" else "float", what.split(" ")[0]),
+                 "lerpfactor (m=%r, a=%r, b=%r) = %r: %s" % (meta[i][3], meta[i][1], meta[i][2], lf, what), rep, True)
+
+    # ---- residue on the REAL code: lerpfactor (lerp (a, b, t), a, b) - t
+    for ty, h, rnd, dec, bound in (("sd", hd, float, lambda tok: u2d(int(tok, 16)), 1e-9), ("sf", hf, tof, lambda tok: u2f(int(tok, 16)), 5e-2)):
+        trips = []
+        while len(trips) < 1500:
+            x, y, t = rnd(rng.uniform(-100, 100)), rnd(rng.uniform(-100, 100)), rnd(rng.uniform(0, 1))
+            if abs(y - x) >= 1e-3:
+                trips.append((x, y, t))
+        rc, o1 = run_lines(cx.binary, ["%s %s %s %s" % (ty, h(x), h(y), h(t)) for x, y, t in trips], "lf1")
+        rc2, o2 = run_lines(cx.binary, ["%s %s %s %s" % (ty, h(x), h(y), l.split()[2]) for (x, y, t), l in zip(trips, o1)], "lf2") if rc == 0 else (1, [])
+        worst, wat = 0.0, None
+        if rc == 0 and rc2 == 0 and len(o2) == len(trips):
+            for (x, y, t), l in zip(trips, o2):
+                e = abs(dec(l.split()[4]) - t)
+                if not e <= worst:
+                    worst, wat = e, (x, y, t)
+        okr = wat is not None and worst <= bound
+        chk.residues["lerpfactor(lerp(a,b,t),a,b)-t on the real code (%s, |b-a|>=1e-3, |a|,|b|<=100, MEASURED)" % ("double" if ty == "sd" else "float")] = {
+            "max_abs": worst, "bound": bound, "at": wat}
+        chk.oblige("residue:lerpfactor inverts lerp on the real code (%s)" % ("double" if ty == "sd" else "float"), "residue", okr)
+        chk.count(len(trips), len(trips))
+        if not okr:
+            chk.fail("residue:lerpfactor inverts lerp", "fun_corr:lerpfactor(lerp)<%s>:residue" % ("double" if ty == "sd" else "float"),
+                     "lerpfactor (lerp (a, b, t), a, b) differs from t by %r at %r" % (worst, wat), {"max_abs": worst, "at": wat, "bound": bound}, True)
+
+    # ---- integer instantiations (not named by the property; three-way: plain build, sanitised build, Python integers)
+    iv = [0, 1, -1, 2, -2, 7, 2 ** 30, -2 ** 30, INT_MAX - 1, INT_MAX, INT_MIN + 1, INT_MIN] + [rng.randint(INT_MIN, INT_MAX) for _ in range(3)]
+    tv = [0, 1, 5, INT_MAX, -1]
+    itr = [(x, y, t) for x in iv for y in iv for t in tv]
+    itr = rng.sample(itr, 500) + [(INT_MAX, -1, 0), (INT_MIN, 0, 0), (INT_MIN, INT_MIN, 0), (-5, 3, 8), (3, 3, 0), (2, 5, 2), (2, 5, 5)]
+    ilines, imeta = [], []
+
+    def ispec(fn, x, y, t):
+        """(value, does an int intermediate overflow?) with unbounded integers"""
+        inr = lambda v: INT_MIN <= v <= INT_MAX
+        iabs = lambda v: (v if v > 0 else -v, not inr(-v) if not v > 0 else False)
+        sgn = lambda v: (v > 0) - (v < 0)
+        if fn == "abs":
+            return iabs(x)
+        if fn == "sign":
+            return sgn(x), False
+        if fn == "clamp":
+            return (x if t < x else (y if t > y else t)), False
+        if fn == "cmp":
+            return sgn(x - y), not inr(x - y)
+        if fn == "iszero":
+            v, o = iabs(x)
+            return (1 if v <= t else 0), o
+        dd = x - y
+        if not inr(dd):
+            return None, True
+        v, o = iabs(dd)
+        if fn == "equal":
+            return (1 if v <= t else 0), o
+        return (0 if v <= t else sgn(dd)), o      # cmpt
+    for x, y, t in itr:
+        for fn in ("abs", "sign", "cmp", "cmpt", "clamp", "iszero", "equal"):
+            ilines.append("si1 %s %d %d %d" % (fn, x, y, t))
+            imeta.append((fn, x, y, t))
+    rc, ia = run_lines(cx.binary, ilines, "si")
+    iu = cx.sanitized(ilines, "si")
+    if rc == 0 and len(ia) == len(ilines) and iu is not None:
+        ibad, excl = [], {}
+        for l, (fn, x, y, t), pa, pu in zip(ilines, imeta, ia, iu):
+            val, ovf = ispec(fn, x, y, t)
+            if pu.startswith("UB") != ovf:
+                ibad.append((l, "sanitizer %s but the definition %s an overflowing int intermediate" % ("aborts" if pu.startswith("UB") else "is clean", "has" if ovf else "has no"), pa, pu, val))
+            elif not ovf and not (pa == pu == str(val)):
+                ibad.append((l, "differs from the definition", pa, pu, val))
+            if ovf:
+                e = excl.setdefault(fn, {"inputs": 0, "plain_build_equals_definition_anyway": 0, "example": None})
+                e["inputs"] += 1
+                e["plain_build_equals_definition_anyway"] += 1 if (val is not None and pa == str(val)) else 0
+                e["example"] = e["example"] or {"call": l, "plain_build": pa, "definition(unbounded)": val, "sanitised": pu}
+        chk.count(len(ilines), len(ilines))
+        chk.oblige("spec:scalar:int: abs/sign/cmp/cmpt/clamp/iszero/equal<int> = definition unless an int intermediate overflows, and the sanitizer "
+                   "aborts exactly there (%d calls)" % len(ilines), "correspondence", not ibad)
+        chk.extra["int_instantiations_excluded_inputs(an intermediate overflows; not claimed)"] = excl
+        for l, what, pa, pu, val in ibad[:3]:
+            chk.fail("spec:scalar:int", "fun_corr:%s<int>:differs-from-definition" % l.split()[1], "`%s`: %s" % (l, what),
+                     {"line": l, "plain_build": pa, "sanitised_build": pu, "definition": val, "replay_cmd": cx.replay_ub(l)}, True)
+
+    # ---- ulerp / lerp at unsigned int (Q = float), dyadic t and a, b < 2^22: every float operation is exact
+    ulines, umeta = [], []
+    for _ in range(400):
+        x, y = rng.randrange(0, 1 << 22), rng.randrange(0, 1 << 22)
+        if rng.random() < 0.2:
+            y = x
+        t = rng.choice([0.0, 0.25, 0.5, 0.75, 1.0])
+        ulines.append("ul %d %d %s" % (x, y, hf(t)))
+        umeta.append((x, y, t))
+    ulines += ["ul 10 3 %s" % hf(0.5), "ul 3 10 %s" % hf(0.5), "ul 4194303 0 %s" % hf(1.0), "ul 0 4194303 %s" % hf(1.0)]
+    umeta += [(10, 3, 0.5), (3, 10, 0.5), (4194303, 0, 1.0), (0, 4194303, 1.0)]
+    ua, ub = cx.both(ulines, "ulerp")
+    if ua is not None:
+        ubad = []
+        for l, (x, y, t), pa, pb in zip(ulines, umeta, ua, ub):
+            want = math.floor(Fraction(x) + (Fraction(y) - Fraction(x)) * Fraction(t))
+            if pa != pb or pa.split() != [str(want), str(want)]:
+                ubad.append((l, pa, pb, want))
+            cx.hit("ulerp<unsigned>:" + ("a>b" if x > y else "a<=b"))
+        chk.count(2 * len(ulines), 2 * len(ulines))
+        chk.oblige("corr+spec:ulerp/lerp<unsigned int, float>: impl = model = floor (a + (b - a) t) (%d calls, both arms)" % len(ulines), "correspondence", not ubad)
+        for l, pa, pb, want in ubad[:3]:
+            chk.fail("corr+spec:ulerp", "fun_corr:ulerp<unsigned>:%s" % ("a>b" if int(l.split()[1]) > int(l.split()[2]) else "a<=b"),
+                     "`%s`: implementation %s, model %s, exact value %d" % (l, pa, pb, want),
+                     {"line": l, "implementation(ulerp lerp)": pa, "model": pb, "exact": want, "replay_cmd": cx.replay_cmd(l)}, True)
 
 
 # ---------------------------------------------------------------------------
@@ -472,6 +808,15 @@ def poly_from_roots(rs):
     for r in rs:
         c = [a - r * b for a, b in zip(c + [Fraction(0)], [Fraction(0)] + c)]
     return c   # highest degree first
+
+
+def exact_quad_roots(a, b, c):
+    """the two real roots of a x^2 + b x + c (Fractions, D > 0) to 2^-190 relative, sorted"""
+    D = b * b - 4 * a * c
+    n = D.numerator * D.denominator
+    k = 200
+    sq = Fraction(math.isqrt(n << (2 * k)), D.denominator << k)
+    return sorted([(-b - sq) / (2 * a), (-b + sq) / (2 * a)])
 
 
 def root_cases(rng):
@@ -515,6 +860,26 @@ def root_cases(rng):
         cases.append(("rn", poly_from_roots([r, r, r])[1:], [r], "cubic-triple"))
     for r1, r2 in rng.sample(list(itertools.permutations(R, 2)), 30):
         cases.append(("rn", poly_from_roots([r1, r1, r2])[1:], sorted({r1, r2}), "cubic-double"))
+    # widely spread, exactly representable roots (2^-20 .. 2^20 at double, 2^-10 .. 2^10 at float), leading coefficient 2^+-30:
+    # b^2 >> 4ac, large / small coefficient scales.  Per-root RELATIVE accuracy is demanded of the quadratic (stable q form);
+    # for the cubic (Cardano is not backward stable root by root) the per-root relative error is measured and recorded.
+    for tyc, mags, rnd in (("d", (-20, -10, 0, 10, 20), float), ("f", (-10, 0, 10), tof)):
+        # quadratics: random full-width mantissas, root magnitudes 2^e1, 2^e2 at least 2^10 apart; the polynomial is the one with the
+        # ROUNDED coefficients, its true roots come from a 200-bit integer square root
+        for _ in range(150):
+            e1, e2 = rng.sample(mags, 2)
+            r1 = Fraction(rnd(rng.uniform(1, 2) * rng.choice([1, -1]))) * Fraction(2) ** e1
+            r2 = Fraction(rnd(rng.uniform(1, 2) * rng.choice([1, -1]))) * Fraction(2) ** e2
+            lead = rng.choice([Fraction(2) ** 30, Fraction(2) ** -30, Fraction(-3)])
+            co = [lead, Fraction(rnd(float(-lead * (r1 + r2)))), Fraction(rnd(float(lead * r1 * r2)))]
+            cases.append(("rq", co, exact_quad_roots(*co), "quad2-wide:" + tyc))
+        W = [Fraction(2) ** e * sg * mant for e in mags for sg, mant in ((1, 1), (-1, 3), (1, 5), (-1, 7), (1, 3))]
+        trips = [t for t in itertools.combinations(W, 3) if min(abs(t[0] / t[1]), abs(t[1] / t[0])) < Fraction(1, 100) and
+                 min(abs(t[1] / t[2]), abs(t[2] / t[1])) < Fraction(1, 100) and min(abs(t[0] / t[2]), abs(t[2] / t[0])) < Fraction(1, 100)]
+        for r3 in rng.sample(trips, min(60, len(trips))):
+            c = poly_from_roots(list(r3))
+            cases.append(("rn", c[1:], sorted(set(r3)), "cubic3-wide:" + tyc))
+            cases.append(("rc", [Fraction(2) ** 30 * x for x in c], sorted(set(r3)), "cubic3-wide:" + tyc))
     cases.append(("rc", [Fraction(0), Fraction(1), Fraction(-3), Fraction(2)], [Fraction(1), Fraction(2)], "cubic-deleg"))
     cases.append(("rc", [Fraction(0), Fraction(0), Fraction(2), Fraction(-6)], [Fraction(3)], "cubic-deleg"))
     return cases
@@ -523,6 +888,10 @@ def root_cases(rng):
 # accuracy bound (relative to max(1,|root|)) for polynomials with well-separated roots; the clean tree measures
 # <= 3e-15 (double) and <= 1.2e-6 (float); the cancellation defect repaired in 7563d4d measured 6e-11 / 2.3e-2
 RBOUND = {"d": 1e-12, "f": 2e-5}
+# model (textbook complex pow) vs implementation on the complex arm: clean-tree maximum 8.9e-16 / 9.5e-7 at seeds 1-3
+CTOL = {"d": 2e-14, "f": 2e-5}
+# per-root RELATIVE bound for quadratics with widely spread roots: clean-tree maximum 2.3e-16 / 1.3e-7 (about one ulp)
+WBOUND = {"d": 4e-15, "f": 2e-6}
 
 
 def cbrt(x):
@@ -535,6 +904,8 @@ def check_roots(cx):
     lines, meta = [], []
     for cmd, co, roots, cls in cases:
         for ty, h, cv in (("d", hd, float), ("f", hf, lambda v: tof(float(v)))):
+            if cls.endswith(":d") and ty != "d" or cls.endswith(":f") and ty != "f":
+                continue
             lines.append("%s %s %s" % (cmd, ty, " ".join(h(cv(float(c))) for c in co)))
             meta.append((cmd, ty, co, roots, cls))
     a, b = cx.both(lines, "roots")
@@ -542,6 +913,8 @@ def check_roots(cx):
         return
     corr_bad, spec_bad, defect = [], [], []
     resid = {"d": {"real": 0.0, "complex": 0.0}, "f": {"real": 0.0, "complex": 0.0}}
+    mdiff = {"d": 0.0, "f": 0.0}
+    wide = {"d": {"quad": 0.0, "cubic": 0.0, "cubic_count_wrong": 0, "cubic_cases": 0}, "f": {"quad": 0.0, "cubic": 0.0, "cubic_count_wrong": 0, "cubic_cases": 0}}
     count_mismatch_double_roots = 0
     for i, (l, (cmd, ty, co, roots, cls)) in enumerate(zip(lines, meta)):
         w = 64 if ty == "d" else 32
@@ -561,8 +934,11 @@ def check_roots(cx):
                         corr_bad.append((i, "complex-branch nan"))
                     continue
                 vp, vq = dec(p), dec(q)
-                tol = (1e-9 if ty == "d" else 2e-3) * max(1.0, abs(vp))
-                if abs(vp - vq) > tol:
+                if not cls.startswith("cubic3-wide"):
+                    mdiff[ty] = max(mdiff[ty], abs(vp - vq) / max(1.0, abs(vp)))
+                # the driver's complex pow is a textbook polar form, not glibc's: agreement to CTOL, 20x the clean-tree maximum
+                # (on the widely spread class the cubic is ill-conditioned and only the count is compared)
+                if abs(vp - vq) > CTOL[ty] * max(1.0, abs(vp)) and not cls.startswith("cubic3-wide"):
                     corr_bad.append((i, "complex-branch root"))
         elif xi != xm:
             corr_bad.append((i, "roots"))
@@ -600,12 +976,29 @@ def check_roots(cx):
             # multiple roots are not "well separated": D = 0 is decided by rounding; recorded, not claimed
             count_mismatch_double_roots += 1
             continue
+        if cls.startswith("cubic3-wide"):
+            wide[ty]["cubic_cases"] += 1
+            if n_impl != len(roots) or any(dec(t) != dec(t) for t in ia[1:1 + n_impl]):
+                wide[ty]["cubic_count_wrong"] += 1      # ill-conditioned: the sign of D is decided by rounding; recorded, not claimed
+                continue
         if n_impl != len(roots):
             spec_bad.append((i, "count", n_impl))
             continue
         vals = [dec(t) for t in ia[1:1 + n_impl]]
         if any(v != v for v in vals):
             spec_bad.append((i, "nan", None))
+            continue
+        if cls.startswith("quad2-wide") or cls.startswith("cubic3-wide"):
+            got = sorted(vals)
+            want = sorted(roots)
+            rel = float(max(abs(Fraction(g) - t) / abs(t) for g, t in zip(got, want))) if all(math.isfinite(g) for g in got) else float("inf")
+            if cls.startswith("quad2-wide"):
+                wide[ty]["quad"] = max(wide[ty]["quad"], rel)
+                cx.hit("roots:quad2-wide:" + ty)
+                if rel > WBOUND[ty]:
+                    spec_bad.append((i, "root accuracy (relative, per root)", rel))
+            else:
+                wide[ty]["cubic"] = max(wide[ty]["cubic"], rel)
             continue
         scale = max([1.0] + [abs(float(r)) for r in roots])
         bound = RBOUND[ty] * scale
@@ -625,6 +1018,13 @@ def check_roots(cx):
     chk.oblige("spec:roots:count-and-accuracy(well-separated roots)", "correspondence", not spec_bad and not defect)
     chk.extra["roots_multiple_root_count_differs(not claimed)"] = count_mismatch_double_roots
     for ty in ("d", "f"):
+        tn = "double" if ty == "d" else "float"
+        chk.residues["roots:%s:solveQuadratic, roots spread over 2^+-%d, leading coefficient 2^+-30: max RELATIVE error of any root" % (tn, 20 if ty == "d" else 10)] = {
+            "max": wide[ty]["quad"], "bound": WBOUND[ty]}
+        chk.residues["roots:%s:cubic solvers, roots spread over 2^+-%d: max relative error of any root (MEASURED; Cardano is not accurate root by root, not claimed)"
+                     % (tn, 20 if ty == "d" else 10)] = {"max": wide[ty]["cubic"], "count_wrong_or_nan(recorded)": "%d of %d" % (wide[ty]["cubic_count_wrong"], wide[ty]["cubic_cases"])}
+        chk.residues["roots:%s:complex-branch cubic, hand model (textbook complex pow) vs implementation: max relative difference" % tn] = {
+            "max": mdiff[ty], "tolerance": CTOL[ty]}
         chk.residues["roots:%s:max relative root error, real branches" % ("double" if ty == "d" else "float")] = {
             "max": resid[ty]["real"], "bound": RBOUND[ty]}
         chk.residues["roots:%s:max relative root error, complex-branch cubic (MEASURED, not proved)" % ("double" if ty == "d" else "float")] = {
@@ -672,6 +1072,8 @@ def check_colour(cx):
     g = [0.0, 0.25, 0.5, 0.75, 1.0]
     rgb = [(x, y, z) for x in g for y in g for z in g] + [(rng.random(), rng.random(), rng.random()) for _ in range(400)]
     rgb += [(v, v, v) for v in (0.0, 0.3, 1.0)] + [(1.0, 0.2, 0.2000001), (0.2, 1.0, 0.2), (0.3, 0.3, 0.9), (0.9, 0.3, 0.3)]
+    # hue just below the wrap (red with a trace of blue): h = -tiny/6 + 1 rounds to exactly 1.0 on the real code
+    rgb += [(1.0, 0.0, 1e-17), (1.0, 0.0, 1e-9), (0.5, 0.0, 1e-18), (1.0, 0.25, 0.25 + 1e-16), (1.0, 0.0, 0.0), (0.0, 0.0, 1.0), (1.0, 0.0, 1.0)]
     hs = [0.0, 1 / 6, 1 / 3, 0.5, 2 / 3, 5 / 6, 1.0, 0.1, 0.999999, 1e-9, 0.16666666666666669, 0.33333333333333337, 0.8333333333333333]
     hsv = [(h, s, v) for h in hs for s in (0.0, 0.5, 1.0) for v in (0.0, 0.5, 1.0)] + \
           [(rng.random(), rng.random(), rng.random()) for _ in range(400)]
@@ -706,6 +1108,68 @@ def check_colour(cx):
         rep = {"lines": lines[i:i + 2], "Vec3": a[i], "Color4": a[i + 1], "replay_cmd": cx.replay_cmd(lines[i + 1])}
         cx.spec_fail.setdefault("colour", rep)
         chk.fail("spec:colour", "%s:Color4<double>:vs-Vec3" % fn, "%s: Vec3 and Color4 copies disagree / alpha changed" % fn, rep, True)
+    # "with hsv in [0,1]": ranges of the real code's outputs on the unit cube (theorem hsv_rgb_ranges; the hue may ROUND to 1.0)
+    out_of_range, hue_one = [], 0
+    for i, l in enumerate(lines):
+        if l.startswith("r2h3") or l.startswith("h2r3"):
+            vals = [u2d(int(t, 16)) for t in a[i].split()]
+            if not all(0.0 <= v <= 1.0 for v in vals):
+                out_of_range.append(i)
+            if l.startswith("r2h3") and vals[0] == 1.0:
+                hue_one += 1
+    cx.hit("colour:rgb2hsv:hue rounds to exactly 1.0", hue_one)
+    chk.oblige("spec:colour:double:rgb2hsv and hsv2rgb map the unit cube into [0,1]^3 (%d colours incl. near-wrap hues)" % (len(rgb) + len(hsv)),
+               "correspondence", not out_of_range)
+    for i in out_of_range[:2]:
+        fn = "rgb2hsv_d" if lines[i].startswith("r2h") else "hsv2rgb_d"
+        rep = {"line": lines[i], "input": [u2d(int(t, 16)) for t in lines[i].split()[1:]], "output": [u2d(int(t, 16)) for t in a[i].split()],
+               "replay_cmd": cx.replay_cmd(lines[i])}
+        cx.spec_fail.setdefault("colour", rep)
+        chk.fail("spec:colour:double:rgb2hsv and hsv2rgb map the unit cube", "fun_corr:%s:output-outside-[0,1]" % fn,
+                 "%s%r = %r leaves [0,1]^3" % (fn, tuple(rep["input"]), tuple(rep["output"])), rep, True)
+
+    # ---- the `else` arms of the four templated wrappers (floating element types): T = float and T = double
+    flines, fmeta = [], []
+    for kind, pts in (("r2h", rgb), ("h2r", hsv)):
+        for (x, y, z) in pts:
+            al = rng.random()
+            for ty, h, rnd in (("d", hd, float), ("f", hf, tof)):
+                v = [rnd(x), rnd(y), rnd(z), rnd(al)]
+                flines.append("f%s3 %s %s" % (kind, ty, " ".join(h(t) for t in v[:3])))
+                fmeta.append((kind, ty, 3, v))
+                flines.append("f%s4 %s %s" % (kind, ty, " ".join(h(t) for t in v)))
+                fmeta.append((kind, ty, 4, v))
+    fa, fb = cx.both(flines, "fcolour")
+    if fa is not None:
+        cw = lambda l, ty: [canon(t, 64 if ty == "d" else 32) for t in l.split()]
+        fbad = [i for i in range(len(flines)) if cw(fa[i], fmeta[i][1]) != cw(fb[i], fmeta[i][1])]
+        chk.oblige("corr:colour:float/double element wrappers:model=impl(%d calls: hsv2rgb/rgb2hsv x Vec3/Color4 x float/double)" % len(flines),
+                   "correspondence", not fbad)
+        chk.count(len(flines), len(flines))
+        for i in fbad[:3]:
+            chk.fail("corr:fcolour", "model-vs-impl:" + flines[i].replace(" ", ","), "floating-element hsv2rgb/rgb2hsv wrapper: implementation differs from model",
+                     {"line": flines[i], "implementation": fa[i], "model": fb[i], "replay_cmd": cx.replay_cmd(flines[i])}, True)
+        # specification from the non-templated routine itself: wrapper (c) = (T) routine_d (double (c)), alpha = (T) double (alpha)
+        dl = ["%s3 %s" % (k, " ".join(hd(t) for t in v[:3])) for (k, ty, n, v) in fmeta]
+        rc, dres = run_lines(cx.binary, dl, "fcolour_d")
+        wbad = []
+        if rc == 0 and len(dres) == len(flines):
+            for i, (k, ty, n, v) in enumerate(fmeta):
+                want = [u2d(int(t, 16)) for t in dres[i].split()] + ([v[3]] if n == 4 else [])
+                h = hd if ty == "d" else hf
+                want = [canon(h(w if ty == "d" else tof(w)), 64 if ty == "d" else 32) for w in want]
+                if cw(fa[i], ty) != want:
+                    wbad.append((i, want))
+        chk.oblige("spec:colour:float/double element wrappers = (T) routine_d (double (c)), alpha passed through", "correspondence",
+                   rc == 0 and not wbad)
+        for i, want in wbad[:3]:
+            k, ty, n, v = fmeta[i]
+            fn = "%s(%s<%s>)" % ("rgb2hsv" if k == "r2h" else "hsv2rgb", "Vec3" if n == 3 else "Color4", "double" if ty == "d" else "float")
+            rep = {"line": flines[i], "input": v[:n], "implementation": fa[i], "expected(from the _d routine)": " ".join(want), "replay_cmd": cx.replay_cmd(flines[i])}
+            cx.spec_fail.setdefault("colour", rep)
+            chk.fail("spec:colour:float/double element wrappers", "fun_corr:%s:wrapper-arm" % fn,
+                     "%s is not the narrowed result of the double routine on the widened colour (or alpha is not passed through)" % fn, rep, True)
+
     # round trips on the real code (rounding measured): hsv2rgb(rgb2hsv c) = c
     rt = ["r2h3 %s %s %s" % (hd(x), hd(y), hd(z)) for (x, y, z) in rgb]
     rc, o = run_lines(cx.binary, rt, "rt1")
@@ -867,6 +1331,23 @@ def check_colour(cx):
             lostd += 1
     chk.oblige("spec:packed:rgb2packed(packed2rgb(p))=p:all 256 values of every channel (float elements)", "correspondence", not lost)
     chk.extra["packed_roundtrip_double_elements_lossy_words(not claimed by the property)"] = "%d of %d" % (lostd, len(chans))
+    # the property's quantifier: ALL 2^32 packed words (Color4<float>) and all 2^24 rgb words (Vec3<float>, alpha comes back as 0xFF)
+    rc, o = lib.sh([cx.binary, "packed_sweep"], timeout=1800)
+    w = o.split()
+    oks = rc == 0 and len(w) == 4 and w[0] == "0" and w[2] == "0"
+    chk.oblige("spec:packed:rgb2packed(packed2rgb(p))=p: ALL 2^32 words (Color4<float>) and all 2^24 rgb words (Vec3<float>), real float arithmetic",
+               "correspondence", oks, None if oks else o[-200:])
+    chk.count((1 << 32) + (1 << 24), (1 << 32) + (1 << 24) - 2)
+    if not oks:
+        if rc == 0 and len(w) == 4:
+            which = ("Color4<float>", w[1]) if w[0] != "0" else ("Vec3<float>", w[3])
+            rep = {"element": which[0], "packed_in": "0x" + which[1], "lossy_words_Color4f": w[0], "lossy_words_Vec3f": w[2],
+                   "replay_cmd": cx.replay_cmd("rt%sf %s" % ("4" if which[0].startswith("Color4") else "3", which[1]))}
+            cx.spec_fail.setdefault("packed", rep)
+            chk.fail("spec:packed:rgb2packed(packed2rgb(p))=p: ALL", "rgb2packed(packed2rgb):%s:sweep" % which[0],
+                     "rgb2packed (packed2rgb (0x%s)) loses a channel for %s" % (which[1], which[0]), rep, True)
+        else:
+            chk.fail("spec:packed:rgb2packed(packed2rgb(p))=p: ALL", "packed_sweep:protocol", "packed_sweep did not run", {"output": o[-300:]}, False)
     for ty, ch, v, p, r in lost[:3]:
         rep = {"element": ty, "channel": ch, "value": v, "packed_in": "0x%08x" % p, "packed_out": "0x%08x" % r,
                "replay_cmd": cx.replay_cmd("rt%sf %x" % ("4" if ty.startswith("Color4") else "3", p))}
@@ -884,10 +1365,18 @@ def check_colour(cx):
             qlines.append("p2r4i %s %x" % (t, rng.getrandbits(32)))
             qlines.append("r2p4i %s %d %d %d %d" % (t, rng.randint(0, mx), rng.randint(0, mx), rng.randint(0, mx), rng.randint(0, mx)))
         qlines.append("r2p4i %s %d %d %d %d" % (t, mx, 0, mx, 0))
+        for _ in range(120):
+            qlines.append("p2r3i %s %x" % (t, rng.getrandbits(32)))
+            qlines.append("r2p3i %s %d %d %d" % (t, rng.randint(0, mx), rng.randint(0, mx), rng.randint(0, mx)))
+        qlines += ["p2r3i %s ff0000" % t, "p2r3i %s 00ff00" % t, "p2r3i %s 0000ff" % t, "r2p3i %s %d 0 0" % (t, mx), "r2p3i %s 0 %d 0" % (t, mx), "r2p3i %s 0 0 %d" % (t, mx)]
+    for _ in range(200):
+        pw = rng.getrandbits(32)
+        qlines += ["p2r3d %x" % pw, "p2r4d %x" % pw]
     a, b = cx.both(qlines, "packed2")
     if a is not None:
         bad = [i for i in range(len(qlines)) if a[i] != b[i]]
-        chk.oblige("corr:packed:rgb2packed(float), packed2rgb/rgb2packed(integer types):model=impl(%d)" % len(qlines), "correspondence", not bad)
+        chk.oblige("corr:packed:rgb2packed(float), packed2rgb(double), packed2rgb/rgb2packed(integer types, Vec3 and Color4):model=impl(%d)" % len(qlines),
+                   "correspondence", not bad)
         chk.count(len(qlines), len(qlines))
         for i in bad[:3]:
             chk.fail("corr:packed", "model-vs-impl:" + qlines[i].replace(" ", ","), "packed colour conversion: implementation differs from model",
@@ -896,38 +1385,134 @@ def check_colour(cx):
 
 # ---------------------------------------------------------------------------
 
-CATEGORY = [("floor|ceil|trunc|finite|succ|pred|ord_", "float"), ("div|mod", "int"), ("solve|cubic|cardano", "roots"),
+# ---------------------------------------------------------------------------
+# T-route: failing-input search for a broken `gen_<function>` theorem
+
+SOLVER_FN = {"gen_solveQuadratic": ("Roots.solveQuadratic", "slots2", "solveQuadratic", 3),
+             "gen_solveNormalizedCubic": ("Roots.solveNormalizedCubic", "slots3", "solveNormalizedCubic", 3),
+             "gen_solveCubic": ("Roots.solveCubic", "slots3", "solveCubic", 4)}
+
+
+def link_search(chk, sym, name):
+    """A concrete input on which the regenerated definition and the hand model differ (evaluated at Rat in Lean), replayed on the real code."""
+    if name not in SOLVER_FN:
+        rep = troute.lean_search(chk, MOD, name, LINK_IMPORTS, LINK_OPENS, binary=sym)
+        if rep:
+            fn = re.search(r"Gen\.([A-Za-z0-9_.]+)", rep.get("theorem_statement", ""))
+            vals = [x for v in rep.get("failing_input", {}).items() if v[0] != "tmax" for x in troute._flat_numbers(v[1])]
+            if fn:
+                rc, out = lib.sh([sym, "real", fn.group(1)] + ["%r" % x for x in vals], timeout=120)
+                rep["real_code_at_double"] = out.strip().split("\n")[-1] if out.strip() else None
+        return rep
+    gfn, slots, mfn, nin = SOLVER_FN[name]
+    rng = chk.rng
+    # library-function parameters: fixed rational stubs (the statement holds for EVERY function, so any will do)
+    pre = ["import %s" % i for i in LINK_IMPORTS] + ["open %s" % o for o in LINK_OPENS] + [
+        "def s1 (x : Rat) : Rat := x * (3 / 2) + 1 / 3",
+        "def s2 (x y : Rat) : Rat := x * (2 / 3) - y / 2 + 1 / 5",
+        "def s2b (x y : Rat) : Rat := x * (5 / 7) + y / 3 - 1 / 2",
+        "def s3p (x y z : Rat) : Rat × Rat := (x / 2 - y + z + 1, x + y * (3 / 4) - z / 3)",
+        "def s2p (x y : Rat) : Rat × Rat := (x * (2 / 5) + y + 1 / 7, y - x / 3 + 2)"]
+    if name == "gen_solveQuadratic":
+        call = lambda a: ("decide (Gen.%s s1 %s = %s (%s s1 %s))" % (gfn, a, slots, mfn, a), "Gen.%s s1 %s" % (gfn, a))
+    else:
+        call = lambda a: ("decide (Gen.%s s1 s2 s2b s3p s2p %s = %s (%s (genF s1 s2 s2b s3p s2p) %s))" % (gfn, a, slots, mfn, a),
+                          "Gen.%s s1 s2 s2b s3p s2p %s" % (gfn, a))
+    cases = []
+    for k in range(160):
+        if k % 3 == 0:
+            # coefficients of a polynomial with chosen roots (hits D = 0 and D < 0 exactly)
+            r = [Fraction(rng.choice([-3, -2, -1, 0, 1, 2, 3, 4]), rng.choice([1, 1, 2])) for _ in range(3)]
+            if k % 6 == 0:
+                r[1] = r[0]
+            co = poly_from_roots(r if nin >= 3 and name != "gen_solveQuadratic" else r[:2])
+            lead = Fraction(rng.choice([1, 2, -3, 0]) if name != "gen_solveNormalizedCubic" else 1)
+            vals = [lead * c for c in co] if name != "gen_solveNormalizedCubic" else co[1:]
+            vals = (vals + [Fraction(1)] * nin)[:nin]
+        else:
+            vals = [Fraction(rng.choice([0, 0, 1, -1, 2, -2, 3, 5, -7]), rng.choice([1, 1, 2, 3])) for _ in range(nin)]
+        cases.append(vals)
+    lines = list(pre)
+    for i, vals in enumerate(cases):
+        a = " ".join("((%d : Rat) / %d)" % (v.numerator, v.denominator) for v in vals)
+        d, g = call(a)
+        lines.append('#eval IO.println s!"CASE %d {%s}"' % (i, d))
+    rc, out = lib.lean_run_file("\n".join(lines) + "\n", timeout=900, name="linksearch")
+    bad = [int(m.group(1)) for m in re.finditer(r"CASE (\d+) false", out)]
+    if not bad:
+        return None
+    vals = cases[bad[0]]
+    rc2, out2 = lib.sh([sym, "real", gfn] + ["%r" % float(v) for v in vals], timeout=120)
+    return {"key": "theorem:" + name, "function": gfn, "failing_input": [str(v) for v in vals],
+            "evaluated_at": "Rat, regenerated definition vs hand model, library functions replaced by fixed rational stubs",
+            "falsified_cases": len(bad), "real_code_at_double": out2.strip().split("\n")[-1] if out2.strip() else None}
+
+
+CATEGORY = [("floor|ceil|trunc|finite|succ|pred|ord_", "float"), ("div|mod", "int"), ("abs|sign|cmp|clamp|iszero|equal|lerp", "scalar"), ("solve|cubic|cardano", "roots"),
             ("packed", "packed"), ("color|hsv|rgb|integer_wrappers", "colour")]
 
 
 def run(chk):
     chk.trusted = [
         "Lean 4.33 kernel; axioms propext, Classical.choice, Quot.sound at most; no native_decide/sorry (audited)",
-        "hand models Model/Fun.lean, Model/Roots.lean, Model/ColorAlgo.lean, tied on every run by harness/corr/fun_corr.cpp "
-        "(real code in-process) vs lean/Driver/Fun.lean (models at Float32/Float/Int) on identical canonical lines",
+        "translator harness/sym (T = Sym path extraction) for the 17 entries of ops_c17.h, validated each run: extracted trees vs the real "
+        "instantiations at float and double (bitwise; tolerance 1e-12 / 1e-5 on the std::complex arm of the cubic), emitted Lean text vs the trees at "
+        "exact rationals (the two cubic entries through theorem gen_solveNormalizedCubic/gen_solveCubic + float correspondence instead)",
+        "hand models Model/Fun.lean (floor/ceil/trunc, int division, bit-level), Model/ColorAlgo.lean, and Model/Roots.lean, tied on every run by "
+        "harness/corr/fun_corr.cpp (real code in-process, plain and UBSan builds) vs lean/Driver/Fun.lean (models at Float32/Float/Int) on identical lines",
         "integer-only specifications of floor/ceil/trunc/finitef/succf/predf inside the harness (all 2^32 floats), Python's "
-        "math.floor/nextafter/Fraction for doubles, integers and roots",
-                "Lean's Float/Float32 compile to the same SSE2/libm operations as g++ -O1 -ffp-contract=off (used only to execute models)",
-        "g++, glibc nextafter/pow, the CPU"]
+        "math.floor/nextafter/Fraction/isqrt for doubles, integers, scalars and roots",
+        "Lean's Float/Float32 compile to the same SSE2/libm operations as g++ -O1 -ffp-contract=off (used only to execute models)",
+        "g++ (incl. libubsan), glibc nextafter/pow, libstdc++ std::complex, the CPU"]
     chk.assumptions = [
         "IsTruncCast: the C++ cast int(y) is exact truncation toward zero for |y| < 2^31 (cvttss2si/cvttsd2si)",
         "IsFloor: int(std::floor(y)) is the exact floor",
         "sqrt/pow/copysign/complex sqrt/complex pow return exact values at the arguments the code passes (hypotheses of the "
-        "root theorems); rounding is measured (residues), not proved",
-        "signed overflow is modelled as two's-complement wrap-around only to RECORD behaviour outside the no-overflow guard"]
-    chk.rule = ("floats: all 2^32 patterns x {floor,ceil,trunc,finitef,succf,predf} against integer-only specs on every run, and "
+        "root theorems; for the double-root count also: pow returns the PRINCIPAL complex cube root); rounding is measured (residues), not proved",
+        "signed overflow is modelled as two's-complement wrap-around only to RECORD behaviour outside the no-overflow guard; inside the "
+        "property's domain the UBSan build shows there is none",
+        "ceil on doubles in (2^31-1, 2^31): the mathematical result 2^31 is not an int; outside the property (theorem ceil_result_not_representable)"]
+    chk.rule = ("T-route: all paths of 17 scalar/solver templates; TV inputs = structured generator (integers, specials, graded magnitudes) + polynomials "
+                "from chosen roots. floats: all 2^32 patterns x {floor,ceil,trunc,finitef,succf,predf} against integer-only specs on every run, and "
                 "against the Lean model on every exponent x {0,1,mid,max} mantissa x sign + integers/halves/2^31 neighbourhood + "
-                "random (quick) or all 2^32 by block hash + bisection (thorough); doubles: boundary exponents incl. the 2^31 edge; "
-                "ints: all pairs over a boundary-heavy value set incl. INT_MIN, +-(2^31-1), +-2^30(+1), 2^16+-1; roots: polynomials "
-                "expanded exactly (Fractions) from chosen integer/dyadic roots, every branch; colour: 5^3 lattice + random rgb, hue "
-                "sextant boundaries x {0,.5,1}^2 + random hsv, grey axis, hue wrap; integer element types uchar/short/ushort/int/uint; "
-                "all 256 values of each packed channel. Non-trivial = every case except exact zeros.")
+                "random (quick) or all 2^32 by block hash + bisection (thorough); doubles: boundary exponents incl. both 2^31 edges, plain AND UBSan builds "
+                "vs the machine-int model; ints: all pairs over a boundary-heavy value set incl. INT_MIN, +-(2^31-1), +-2^30(+1), 2^16+-1, one function per "
+                "call under UBSan; scalars: sampled product grid + deterministic boundary equalities (|a-b| = t, |a| = t, a = l, a = h, |n| = max|d|) + int and "
+                "unsigned instantiations; roots: polynomials expanded exactly (Fractions) from chosen integer/dyadic roots, every branch, + quadratics with "
+                "roots spread over 2^+-20 and full-width mantissas (reference roots by 200-bit isqrt); colour: 5^3 lattice + random rgb + near-wrap hues, hue "
+                "sextant boundaries x {0,.5,1}^2 + random hsv, grey axis, hue wrap, all four wrappers at float/double/5 integer element types; "
+                "ALL 2^32 packed words. Non-trivial = every case except exact zeros.")
+    # ---- T-route: regenerate Gen/C17Fun.lean, Gen/C17Roots.lean from the current tree; the `gen_*` theorems tie them to the hand models
+    bins = troute.build_extractors(chk, [dict(name="sym_c17", source="sym/sym_c17.cpp")])
+    sym = bins.get("sym_c17")
+    if sym:
+        index, changed = troute.regenerate(chk, sym, "c17")
+        troute.tv(chk, sym, "c17", 400 if chk.thorough else 64)
+        ph = getattr(chk, "tv_paths", {}).get("c17", {})
+        missed = sorted(k for k, v in ph.items() if v[0] < v[1])
+        chk.oblige("tv:c17: every leaf of every extracted decision tree is reached by the validation inputs (%d leaves of %d trees)"
+                   % (sum(v[1] for v in ph.values()), len(ph)), "translation-validation", bool(ph) and not missed, missed or None)
+        if ph and missed:
+            chk.fail("tv:c17: every leaf", "tv:c17:leaves-not-reached", "translator validation did not reach every leaf of: " + ", ".join(missed),
+                     {"leaves(hit,total)": {k: ph[k] for k in missed}}, False)
+        troute.lean_tv(chk, sym, "c17", index, n=8 if chk.thorough else 3)
+        chk.extra["lean_tv_note"] = ("solveNormalizedCubic / solveCubic call the parameter functions copysign/csqrt/cpow and are skipped by the "
+                                     "rational emitter validation; their emitted text is validated by theorem gen_solveNormalizedCubic / gen_solveCubic "
+                                     "(emitted text = hand model) together with the float correspondence hand model = real code")
+        chk.extra["tv_note"] = ("the two cubic entries are compared with a tolerance (1e-12 double / 1e-5 float, well-scaled inputs) on the complex arm: "
+                                "std::complex<double> divides with __divdc3, the generic template instantiated at T = Sym with the textbook formula")
     okd = lib.lake_build(["drv_fun"])
     chk.oblige("build:drv_fun", "build", okd[0] == 0, None if okd[0] == 0 else okd[1][-800:])
-    ok, binary, o = lib.cxx_build("fun_corr", ["corr/fun_corr.cpp", os.path.join(lib.REPO, "src/Imath/ImathFun.cpp"),
-                                               os.path.join(lib.REPO, "src/Imath/ImathColorAlgo.cpp")])
+    srcs = ["corr/fun_corr.cpp", os.path.join(lib.REPO, "src/Imath/ImathFun.cpp"), os.path.join(lib.REPO, "src/Imath/ImathColorAlgo.cpp")]
+    built = lib.cxx_build_many([dict(name="fun_corr", sources=srcs),
+                                dict(name="fun_corr_ubsan", sources=srcs, extra=UBSAN_FLAGS)])
+    ok, binary, o = built["fun_corr"]
+    oku, ubin, ou = built["fun_corr_ubsan"]
     chk.oblige("build:fun_corr", "build", ok, None if ok else o[-800:])
-    cx = Ctx(chk, binary)
+    chk.oblige("build:fun_corr_ubsan (%s)" % " ".join(UBSAN_FLAGS), "build", oku, None if oku else ou[-800:])
+    if ok and not oku:
+        chk.fail("build:fun_corr_ubsan", "build:fun_corr_ubsan", "the sanitised correspondence harness does not build", {"compiler_output": ou[-3000:]}, False)
+    cx = Ctx(chk, binary, ubin if oku else None)
     if not ok:
         chk.fail("build:fun_corr", "build:fun_corr", "correspondence harness does not compile against the current tree",
                  {"compiler_output": o[-3000:]}, False)
@@ -947,6 +1532,10 @@ def run(chk):
         chk.sample({"call": "rgb2packed(packed2rgb(0x80ff0a01)) (C4f)", "result": "0x80ff0a01"})
 
     def search(name):
+        if name.startswith("gen_") and sym:
+            rep = link_search(chk, sym, name)
+            if rep:
+                return rep
         for pat, cat in CATEGORY:
             if re.search(pat, name) and cat in cx.spec_fail:
                 rep = dict(cx.spec_fail[cat])
